@@ -48,6 +48,9 @@ FAMILY = {
     'alias': [R('start', ('seq', C('x'), ('opt', T('b')))), R('x', C('y')), R('y', ('alt', T('a'), T('b')))],
     'pyname': [R('start', ('seq', C('class'), ('opt', C('print')))), R('class', T('a')), R('print', T('b'))],
 }
+FAMILY['name-keyword'] = [R('start', ('seq', ('pclo', ('alt', C('id'), T('ab'))), ('eof',))),
+                          R('id', ('pat', '[ab]+'), decorators=('name',))]
+FAMILY_KEYWORDS = {'name-keyword': ('ab', 'b')}
 NONMEMO_RULES = {'retry-nomemo': {'x'}}
 LR_FAMILY = {
     'leftrec': [R('start', ('seq', C('e'), ('eof',))), R('e', ('alt', ('seq', C('e'), T('+'), C('t')), C('t'))), R('t', ('pat', r'\d'))],
@@ -187,7 +190,7 @@ def ref_run(g, text, kind, arg=None, start=None):
             return ['<tuple>', 'Z', value, 0, False, '', None]
         return value
 
-    ref = Ref(g, Cfg(), actions=action)
+    ref = Ref(g, Cfg(keywords=tuple(g.keywords or ())), actions=action)
     try:
         out = ref.parse(text, start=start)
     except RaisedInAction:
@@ -440,7 +443,7 @@ def strip_pi(v):
 
 def shard_family(m, items):
     for name, rules, inputs, is_lr in items:
-        g = gs.Grammar(rules=rules)
+        g = gs.Grammar(rules=rules, keywords=FAMILY_KEYWORDS.get(name, ()))
         check_grammar(m, name, g, inputs, nomemo=frozenset(NONMEMO_RULES.get(name, ())), is_lr=is_lr)
         impl.rule_reach(m, 'family-rules', name, impl.compile_text(gs.render_grammar(g)), inputs)
         m.sample({'grammar': gs.render_grammar(g), 'inputs': len(inputs)})
